@@ -26,7 +26,7 @@ func ValidateExtendedDaemonSetSpec(spec *ExtendedDaemonSetSpec) error {
 			return ErrInvalidAutoFailRestarts
 		}
 
-		if *canary.AutoFail.Enabled && canary.AutoFail.CanaryTimeout != nil && canary.AutoFail.CanaryTimeout.Duration <= canary.Duration.Duration {
+		if *canary.AutoFail.Enabled && canary.AutoFail.CanaryTimeout != nil && canary.Duration != nil && canary.AutoFail.CanaryTimeout.Duration <= canary.Duration.Duration {
 			return ErrInvalidCanaryTimeout
 		}
 
